@@ -304,70 +304,116 @@ func c20(c *an.Ctx) {
 		if f := fn(r, S+":PKIndexReaderImpl.doBinarySearch"); f != nil {
 			// the probes of the two bisection loops: calls through the function-typed parameter inside
 			// a loop, given a range either as (lo, hi) or as a fragment.NewFragmentRange(lo, hi)
-			// built in the same iteration
+			// built in the same iteration.  The loops may live in helpers of the package that are
+			// handed the checker (and the fragment count): parameters are mapped back to the caller's.
 			n := 0
-			ast.Inspect(f.Body, func(m ast.Node) bool {
-				ce, ok := m.(*ast.CallExpr)
-				if !ok {
-					return true
-				}
-				id, ok := ast.Unparen(ce.Fun).(*ast.Ident)
-				if !ok {
-					return true
-				}
-				pv, _ := f.Info.Uses[id].(*types.Var)
-				isParam := false
-				for _, q := range f.Params {
-					if q == pv && pv != nil {
-						_, isParam = pv.Type().Underlying().(*types.Signature)
-					}
-				}
-				lp := loopOf(f, ce)
-				if !isParam || lp == nil {
-					return true
-				}
-				var lo, hi ast.Expr
-				switch len(ce.Args) {
-				case 2:
-					lo, hi = ce.Args[0], ce.Args[1]
-				case 1:
-					if aid, ok := ast.Unparen(ce.Args[0]).(*ast.Ident); ok {
-						av := f.Info.Uses[aid]
-						ast.Inspect(lp, func(k ast.Node) bool {
-							as, ok := k.(*ast.AssignStmt)
-							if !ok || len(as.Lhs) != 1 || len(as.Rhs) != 1 {
-								return true
+			var scan func(f *an.Fn, names map[*types.Var]string, depth int)
+			scan = func(f *an.Fn, names map[*types.Var]string, depth int) {
+				canonOf := func(e ast.Expr) string {
+					if id, ok := ast.Unparen(e).(*ast.Ident); ok {
+						if v, ok := f.Info.Uses[id].(*types.Var); ok {
+							if nm, ok := names[v]; ok {
+								return nm
 							}
-							lid, ok := as.Lhs[0].(*ast.Ident)
-							if !ok || (f.Info.Defs[lid] != av && f.Info.Uses[lid] != av) {
-								return true
-							}
-							if mk, ok := ast.Unparen(as.Rhs[0]).(*ast.CallExpr); ok && len(mk.Args) == 2 {
-								if cal := an.Callee(f.Info, mk); cal != nil && cal.Name() == "NewFragmentRange" {
-									lo, hi = mk.Args[0], mk.Args[1]
-								}
-							}
-							return true
-						})
-					} else if mk, ok := ast.Unparen(ce.Args[0]).(*ast.CallExpr); ok && len(mk.Args) == 2 {
-						if cal := an.Callee(f.Info, mk); cal != nil && cal.Name() == "NewFragmentRange" {
-							lo, hi = mk.Args[0], mk.Args[1]
 						}
 					}
+					if names != nil {
+						if _, isLit := ast.Unparen(e).(*ast.BasicLit); !isLit {
+							return "helper:" + f.Canon(e)
+						}
+					}
+					return f.Canon(e)
 				}
-				n++
-				if lo == nil || hi == nil {
-					r.Fail("doBinarySearch: probe "+types.ExprString(ce), c.P.Pos(ce.Pos()), "the fragment range of the bisection probe %s cannot be determined (expected (lo, hi) or a NewFragmentRange(lo, hi) built in the same iteration)", types.ExprString(ce))
+				isChecker := func(e ast.Expr) bool {
+					id, ok := ast.Unparen(e).(*ast.Ident)
+					if !ok {
+						return false
+					}
+					pv, _ := f.Info.Uses[id].(*types.Var)
+					for _, q := range f.Params {
+						if q == pv && pv != nil {
+							if _, isFn := pv.Type().Underlying().(*types.Signature); isFn {
+								return true
+							}
+						}
+					}
+					return false
+				}
+				ast.Inspect(f.Body, func(m ast.Node) bool {
+					ce, ok := m.(*ast.CallExpr)
+					if !ok {
+						return true
+					}
+					// a helper that is handed the checker
+					if depth < 2 {
+						if cal := an.Callee(f.Info, ce); cal != nil && cal.Pkg() == f.Pkg.Types {
+							passes := false
+							for _, a := range ce.Args {
+								if isChecker(a) {
+									passes = true
+								}
+							}
+							if src := c.P.Src(cal); passes && src != nil && src.Decl.Body != nil {
+								if hf := c.P.Fn(src); hf != nil {
+									sub := map[*types.Var]string{}
+									for i, a := range ce.Args {
+										if i < len(hf.Params) && hf.Params[i] != nil {
+											sub[hf.Params[i]] = canonOf(a)
+										}
+									}
+									scan(hf, sub, depth+1)
+								}
+							}
+						}
+					}
+					lp := loopOf(f, ce)
+					if !isChecker(ce.Fun) || lp == nil {
+						return true
+					}
+					var lo, hi ast.Expr
+					switch len(ce.Args) {
+					case 2:
+						lo, hi = ce.Args[0], ce.Args[1]
+					case 1:
+						if aid, ok := ast.Unparen(ce.Args[0]).(*ast.Ident); ok {
+							av := f.Info.Uses[aid]
+							ast.Inspect(lp, func(k ast.Node) bool {
+								as, ok := k.(*ast.AssignStmt)
+								if !ok || len(as.Lhs) != 1 || len(as.Rhs) != 1 {
+									return true
+								}
+								lid, ok := as.Lhs[0].(*ast.Ident)
+								if !ok || (f.Info.Defs[lid] != av && f.Info.Uses[lid] != av) {
+									return true
+								}
+								if mk, ok := ast.Unparen(as.Rhs[0]).(*ast.CallExpr); ok && len(mk.Args) == 2 {
+									if cal := an.Callee(f.Info, mk); cal != nil && cal.Name() == "NewFragmentRange" {
+										lo, hi = mk.Args[0], mk.Args[1]
+									}
+								}
+								return true
+							})
+						} else if mk, ok := ast.Unparen(ce.Args[0]).(*ast.CallExpr); ok && len(mk.Args) == 2 {
+							if cal := an.Callee(f.Info, mk); cal != nil && cal.Name() == "NewFragmentRange" {
+								lo, hi = mk.Args[0], mk.Args[1]
+							}
+						}
+					}
+					n++
+					if lo == nil || hi == nil {
+						r.Fail("doBinarySearch: probe "+types.ExprString(ce), c.P.Pos(ce.Pos()), "the fragment range of the bisection probe %s cannot be determined (expected (lo, hi) or a NewFragmentRange(lo, hi) built in the same iteration)", types.ExprString(ce))
+						return true
+					}
+					prefix := canonOf(lo) == "0"
+					suffix := canonOf(hi) == "p0"
+					if !prefix && !suffix {
+						r.Fail("doBinarySearch: probe ["+types.ExprString(lo)+", "+types.ExprString(hi)+")", c.P.Pos(ce.Pos()),
+							"doBinarySearch probes the fragment range [%s, %s), which is neither a prefix [0, m) nor a suffix [m, fragmentCount): bisection on a single fragment is only right when the matching fragments are contiguous (a = 'A' OR a = 'G' loses every match right of the first gap)", types.ExprString(lo), types.ExprString(hi))
+					}
 					return true
-				}
-				prefix := f.Canon(lo) == "0"
-				suffix := f.Canon(hi) == "p0"
-				if !prefix && !suffix {
-					r.Fail("doBinarySearch: probe ["+types.ExprString(lo)+", "+types.ExprString(hi)+")", c.P.Pos(ce.Pos()),
-						"doBinarySearch probes the fragment range [%s, %s), which is neither a prefix [0, m) nor a suffix [m, fragmentCount): bisection on a single fragment is only right when the matching fragments are contiguous (a = 'A' OR a = 'G' loses every match right of the first gap)", types.ExprString(lo), types.ExprString(hi))
-				}
-				return true
-			})
+				})
+			}
+			scan(f, nil, 0)
 			r.AddSites(n)
 			if n < 2 {
 				r.Fail("doBinarySearch: probes", c.P.Pos(f.Body.Pos()), "expected the probes of the two bisection loops (left boundary, right boundary), found %d", n)
@@ -782,4 +828,19 @@ func c20hashPerColumn(c *an.Ctx) {
 	if byPhrase > 0 {
 		r.Fail(f.Name+": hashes keyed by the phrase", c.P.Pos(f.Body.Pos()), "hitExpr takes the hashes of an atom from a table keyed by the phrase alone: with two indexed columns the atom of one column is answered from the other column's tokens")
 	}
+}
+
+func init() {
+	old := All["C20"].Run
+	All["C20"].Run = func(c *an.Ctx) {
+		old(c)
+		mergeIdiom(c, "C20.R11", "posting lists of the text indexes are intersected / united by two-cursor merges over sorted row ids: the smaller side's cursor advances", map[string]int{
+			"engine/index/textindex:ArrayContainer.andArray": 1,
+			"engine/index/textindex:IntersectContainers":     1,
+			"engine/index/clv:IntersectInvertIndexBySlip":    1,
+			"engine/index/clv:UnionInvertIndexBySlip":        1,
+		}, "a row id present in one list only must be stepped past without losing the other list's position, otherwise matching rows are pruned")
+	}
+	All["C20"].Rules += " R11"
+	addLevel("C20", "posting lists of the text indexes are intersected/united by sorted two-cursor merges with the smaller side advancing.")
 }
